@@ -28,7 +28,7 @@ def canon(e, env=None, post=False, place=False):
     if e is None:
         return ""
     k = e.get("k")
-    if k in ("Cast", "Paren", "Try"):
+    if k in ("Cast", "Paren", "Try", "Ref"):
         return canon(e["e"], env, post, place)
     if k in ("Field", "Index") and _self_rooted(e):
         def chain(x):
@@ -56,6 +56,8 @@ def canon(e, env=None, post=False, place=False):
     if k == "Index":
         return "%s[%s]" % (canon(e["e"], env, post), canon(e["index"], env, post))
     if k == "Unary":
+        if e["op"] == "*":
+            return canon(e["e"], env, post)  # a dereference denotes the same value
         return "%s%s" % (e["op"], canon(e["e"], env, post))
     if k == "Binary":
         l, r = canon(e["left"], env, post), canon(e["right"], env, post)
@@ -66,6 +68,8 @@ def canon(e, env=None, post=False, place=False):
         segs = tuple(A.path_segs(e["func"]) or [])
         if segs[-2:] in _CAST_CALLS and len(e["args"]) == 1:
             return canon(e["args"][0], env, post)
+        if segs[-2:] in (("Arc", "clone"), ("Rc", "clone"), ("Clone", "clone")) and len(e["args"]) == 1:
+            return canon(e["args"][0], env, post)  # a clone denotes the same value
         return "%s(%s)" % ("::".join(segs) or canon(e["func"], env, post), ",".join(canon(a, env, post) for a in e["args"]))
     if k == "MethodCall":
         if e["method"] in ("into", "clone") and not e["args"]:
@@ -77,6 +81,49 @@ def canon(e, env=None, post=False, place=False):
     if k == "Tuple":
         return "(%s)" % ",".join(canon(x, env, post) for x in e["elems"])
     return A.unparse(e).replace(" ", "")
+
+
+def tuple_bindings(pat, init, post=False):
+    """`let (a, b) = (x, y)` -> a: x, b: y ; `let (a, b) = v` -> a: v.0, b: v.1"""
+    out = {}
+    iv = A.strip(init)
+    while iv is not None and iv.get("k") == "Unary" and iv.get("op") == "*":
+        iv = A.strip(iv["e"])
+    for k, pe in enumerate(pat.get("elems", [])):
+        b = A.binding_name(pe)
+        if not b or pe.get("mut"):
+            continue
+        if iv.get("k") == "Tuple" and k < len(iv["elems"]):
+            out[b] = (iv["elems"][k], post)
+        else:
+            out[b] = ({"k": "Field", "e": init, "member": str(k)}, post)
+    return out
+
+
+def let_env(stmts):
+    """name -> (initialiser, False) for the immutable lets of a statement list (destructuring included)"""
+    env = {}
+    for s in stmts:
+        if s.get("k") != "Let" or s.get("init") is None:
+            continue
+        p = s["pat"]["pat"] if s["pat"].get("k") == "PType" else s["pat"]
+        if p.get("k") == "PIdent" and not p.get("mut"):
+            env[p["name"]] = (s["init"], False)
+        elif p.get("k") == "PTuple":
+            env.update(tuple_bindings(p, s["init"]))
+        elif p.get("k") == "PStruct":
+            for f in p.get("fields", []):
+                b = A.binding_name(f["pat"])
+                if b:
+                    env[b] = ({"k": "Field", "e": s["init"], "member": f["name"]}, False)
+        elif p.get("k") == "PTupleStruct":
+            # `let Tree(x) = t;` names t.0
+            _segs, subs = A.pat_variant(p)
+            for k, sp in enumerate(subs or []):
+                b = A.binding_name(sp)
+                if b and not sp.get("mut"):
+                    env[b] = ({"k": "Field", "e": s["init"], "member": str(k)}, False)
+    return env
 
 
 def summary(fn):
@@ -108,12 +155,9 @@ def summary(fn):
                             b = A.binding_name(f["pat"])
                             if b and not f["pat"].get("mut"):
                                 env[b] = ({"k": "Field", "e": s["init"], "member": f["name"]}, st["post"])
-                    elif p_.get("k") == "PTuple" and A.strip(s["init"]).get("k") == "Tuple":
+                    elif p_.get("k") == "PTuple":
                         env = dict(env)
-                        for pe, ve in zip(p_["elems"], A.strip(s["init"])["elems"]):
-                            b = A.binding_name(pe)
-                            if b and not pe.get("mut"):
-                                env[b] = (ve, st["post"])
+                        env.update(tuple_bindings(p_, s["init"], st["post"]))
                 continue
             e = A.strip(A.stmt_expr(s) or {})
             c0 = canon(e["cond"], env, st["post"]) if e.get("k") == "If" else None
